@@ -318,12 +318,16 @@ func rulesC16(w *World, o *Out) {
 		for _, s := range sites {
 			pos := w.Pos(s.Instr.Pos())
 			var gm *ssa.Call
+			var gmFact Fact
 			okAdmin := false
 			for _, f := range FactsAt(s.Instr) {
 				if f.Kind != FCmp || f.Op != token.EQL {
 					continue
 				}
 				for _, pair := range [][2]ssa.Value{{f.X, f.Y}, {f.Y, f.X}} {
+					// through a guard helper (requireDenomAdmin(ctx, denom, sender)): the helper's parameters
+					// are the arguments of the guarding call
+					pair[0], pair[1] = f.Resolve(pair[0]), f.Resolve(pair[1])
 					aps, _ := fl.Influence(pair[0])
 					isCreator := false
 					for a := range aps {
@@ -338,6 +342,7 @@ func rulesC16(w *World, o *Out) {
 						if fl.DependsOnCall(pair[1], isCallee("", "", "GetAdmin")) != nil || strings.Contains(valDesc(pair[1]), "Admin") {
 							okAdmin = true
 							gm = c
+							gmFact = f
 						}
 					}
 				}
@@ -346,7 +351,7 @@ func rulesC16(w *World, o *Out) {
 			if gm != nil {
 				// metadata loaded for the same denom the operation uses
 				args := gm.Call.Args
-				aps, _ := fl.Influence(args[len(args)-1])
+				aps, _ := fl.Influence(gmFact.Resolve(args[len(args)-1]))
 				same := false
 				for a := range aps {
 					if a.Root == ssa.Value(req) && a.Path == op.denom {
